@@ -11,6 +11,9 @@ import logging
 import sys
 
 
+HANDLES = {}
+
+
 def main():
     script_dir, forbidden, mode = sys.argv[1], sys.argv[2], sys.argv[3]
     files = sys.argv[4:]
@@ -24,10 +27,19 @@ def main():
     origin = {'replay_unpack': replay_unpack.__file__, 'replay_parser': replay_parser.__file__}
     for item in files:
         # an item is either a path (global mode) or '<mode>=<path>'
-        m, path = (item.split('=', 1) if ('=' in item and item.split('=', 1)[0] in ('strict', 'lenient', 'strict2', 'lenient2')) else (mode, item))
+        head = item.split('=', 1)[0] if '=' in item else ''
+        m, path = (item.split('=', 1) if head.split('#')[0] in ('strict', 'lenient', 'strict2', 'lenient2') else (mode, item))
+        # '<mode>#<handle>=<path>': items with the same handle share one ReplayParser object (kept across the other parses in between)
+        handle = m.split('#', 1)[1] if '#' in m else None
+        m = m.split('#', 1)[0]
         rec = {'file': path, 'mode': m}
         try:
-            parser = replay_parser.ReplayParser(path, strict=m.startswith('strict'))
+            if handle is not None and (handle, path, m) in HANDLES:
+                parser = HANDLES[(handle, path, m)]
+            else:
+                parser = replay_parser.ReplayParser(path, strict=m.startswith('strict'))
+                if handle is not None:
+                    HANDLES[(handle, path, m)] = parser
             info = parser.get_info()
             if m.endswith('2'):
                 # the same parser object asked again: the second answer is the one reported
